@@ -270,7 +270,7 @@ class Ctx:
             m = re.match(r"^The depth of the complete state graph search is (\d+)", line)
             if m:
                 r.depth = int(m.group(1))
-            m = re.match(r"^<(\w+) line \d+, col \d+ to line \d+, col \d+ of module (\w+)>: (\d+):(\d+)", line)
+            m = re.match(r"^<(\w+) line \d+, col \d+ to line \d+, col \d+ of module (\w+)(?: \([\d ]+\))?>: (\d+):(\d+)", line)
             if m:
                 a = m.group(1)
                 d, g = int(m.group(3)), int(m.group(4))
